@@ -76,6 +76,15 @@ CHECKS = {
              "from the ownership rules of C05/C06/C10/C11, not from this check.",
         note="trusts rustc layout computation and a small C struct parser; header cross-check covers the types the example header mentions",
         ref="4 C16"),
+    "C10": dict(
+        cat="other",
+        technique="ownership ledger over arc.rs (per-path net effect of into_raw/from_raw/drop_in_place/stored clone+drop slots), transfer-disarms-source rule by origin tracing, guard dominance for the CArc->CArcSome reinterpretation, rustc layout equality, auto-trait bound comparison",
+        text="per-operation rules: each constructor leaks exactly one strong reference and stores c_clone/c_drop at its own T; c_clone adds exactly one, c_drop "
+             "releases exactly one (only for Some); Clone/Drop touch the count only through the stored functions; every conversion that builds a handle from another "
+             "handle takes the drop function out of the source; the empty state clones to empty and drops as a no-op. `count == live handles over all histories "
+             "and thread schedules` is DERIVED from these facts (safe code cannot duplicate a handle; all shared state is inside std::sync::Arc), not enumerated.",
+        note="trusts std::sync::Arc; schedules are not explored -- the rules are schedule-independent",
+        ref="4 C10"),
     "C12": dict(
         cat="other",
         technique="MIR origin tracing (def-use) and discriminant-arm rules over every function that builds/rebuilds slice views or converts option/result/tuple forms",
